@@ -199,7 +199,7 @@ def _targets(e, M):
 
 
 def _mk(prop, floor):
-    @rule('R-DEREG-' + prop, [prop], floor=floor)
+    @rule('R-DEREG-' + prop, [prop], floor=floor, configs=(['d20', 'r20', 'v20'] if prop == 'C10' else None))
     def r(run, F, prop=prop):
         regs = collections.defaultdict(list)
         for rec, fl in registrations(F):
